@@ -60,11 +60,16 @@ def import_data(
             shape = import_shape(fp)
             r = import_rank(fp)
             weights = import_array(fp, r)
+            if r == 0:
+                fp.readline()  # np.fromfile(count=0) leaves the empty weights line
             factor_matrices = []
             for _ in range(len(shape)):
                 fp.readline().strip()  # Skip factor type
                 fac_shape = import_shape(fp)
                 fac = import_array(fp, np.prod(fac_shape))
+                if np.prod(fac_shape) == 0:
+                    for _ in range(fac_shape[0]):
+                        fp.readline()  # ... and the empty row lines of a factor
                 fac = np.reshape(fac, np.array(fac_shape))
                 factor_matrices.append(fac)
             return ttb.ktensor(factor_matrices, weights, copy=False)
